@@ -73,6 +73,46 @@ def make_trees(tmp, tier, seed):
     return trees
 
 
+RELATIVIZE_SNIPPET = r"""
+import importlib.util, itertools, json, sys
+sys.path.insert(0, sys.argv[1])
+from protocol_code_generator.generate.code_block import Import
+names = ["server", "server_settings", "settings", "map", "map_bounds", "maps", "net", "network", "client", "client_info",
+         "pub", "pub_version", "item", "a", "net_server", "packet_family"]
+dirs = ["", "map", "net", "net.client", "net.server", "pub", "pub.server", "net.server.deep"]
+base = "eolib.protocol._generated"
+bad = []
+n = 0
+for d in dirs:
+    pkg = base + ("." + d if d else "")
+    targets = [base + ("." + d2 if d2 else "") + "." + nm for d2 in dirs for nm in names]
+    targets += ["eolib.data.eo_writer", "eolib.protocol.serialization_error", "eolib.protocol.net.packet", "enum", "typing",
+                "collections.abc", "__future__"]
+    for t in targets:
+        n += 1
+        line = Import("X", t).relativize(pkg)
+        frm = line.split()[1]
+        try:
+            resolved = importlib.util.resolve_name(frm, pkg) if frm.startswith(".") else frm
+        except Exception as e:
+            resolved = "error: " + repr(e)
+        if resolved != t or not line.endswith(" import X"):
+            bad.append({"package": pkg, "target": t, "emitted": line, "resolves_to": resolved})
+print(json.dumps({"checked": n, "bad": bad[:8]}))
+"""
+
+
+def relativize_contract():
+    """runtime contract of Import.relativize: the emitted relative import, resolved by Python's own
+    rules from the importing package, is the absolute module it was asked for (adversarial names:
+    modules whose names start with a directory name)"""
+    p = subprocess.run([sys.executable, "-c", RELATIVIZE_SNIPPET, repo.REPO], capture_output=True, text=True)
+    try:
+        return json.loads(p.stdout.strip().splitlines()[-1])
+    except Exception:
+        return {"checked": 0, "bad": [{"error": p.stderr[-400:]}]}
+
+
 def run(tier, seed):
     t0 = time.time()
     tmp = tempfile.mkdtemp(prefix="verif-c18-")
@@ -80,6 +120,13 @@ def run(tier, seed):
     evals = 0
     distinct = set()
     samples = []
+    rel = relativize_contract()
+    evals += rel["checked"]
+    if rel["bad"]:
+        failures.append({"kind": "relative-import-resolves-to-the-wrong-module", "cases": rel["bad"][:4]})
+    else:
+        samples.append({"Import.relativize": f"{rel['checked']} (package, target) pairs resolve to the requested module"})
+        distinct.add(("relativize", rel["checked"]))
     try:
         trees = make_trees(tmp, tier, seed)
         hashseeds = [0, 1, 2] if tier == "quick" else [0, 1, 2, 3, 5, 8, 13, 21]
